@@ -122,7 +122,11 @@ func (r Promise[T]) dispatchOrAddCallback(cb onCompleteFunc[T]) {
 		return
 
 	case []onCompleteFunc[T]:
-		if r.status.CompareAndSwap(ap, append(status, cb)) {
+		// never append in place: the current list is shared with concurrent registrations
+		nl := make([]onCompleteFunc[T], len(status)+1)
+		copy(nl, status)
+		nl[len(status)] = cb
+		if r.status.CompareAndSwap(ap, nl) {
 			return
 		}
 		r.dispatchOrAddCallback(cb)
